@@ -1012,6 +1012,26 @@ class Machine:
             a, b = strip_ref(args[0]), strip_ref(args[1])
             r = self.binop(st, "Eq", a, b)
             return r
+        # ---- concrete iteration over constant arrays (loops over them unroll instead of being cut)
+        if (name.endswith("::into_iter") or name.endswith("<impl [T]>::iter")) and len(args) == 1 \
+                and isinstance(strip_ref(args[0]), Agg) and strip_ref(args[0]).kind == "array":
+            arr = strip_ref(args[0])
+            if isinstance(arr, Agg) and arr.kind == "array":
+                return Agg("sliceiter", None, None, [arr, Const(0)])
+            return None
+        if name == "<I as std::iter::IntoIterator>::into_iter" and len(args) == 1:
+            return args[0]
+        if name.endswith("::next") and len(args) == 1:
+            it = args[0]
+            itv = strip_ref(it)
+            if isinstance(itv, Agg) and itv.kind == "sliceiter":
+                arr, idx = itv.fields
+                fr.visits.clear()
+                if idx.v < len(arr.fields):
+                    itv.fields[1] = Const(idx.v + 1)
+                    return Agg("adt", "std::option::Option::Some", 1, [arr.fields[idx.v]])
+                return Agg("adt", "std::option::Option::None", 0, [])
+            return None
         if name == "core::slice::<impl [T]>::contains" and len(args) == 2:
             arr, x = strip_ref(args[0]), strip_ref(args[1])
             if isinstance(arr, Agg) and arr.kind == "array" and all(isinstance(f, (CharV, Const)) for f in arr.fields) and isinstance(x, (CharV, Const)):
